@@ -103,7 +103,7 @@ class Ctx:
         return res
 
     # ------------------------------------------------------------------ conformance
-    def conform(self, scen_text, tag, variant="plain", crash_props=None, call_timeout=60, chunk=4000, env=None, spec="Trace", inject=None, par=NCPU, files=None, one_per_process=False, post=None, driver="qsx"):
+    def conform(self, scen_text, tag, variant="plain", crash_props=None, call_timeout=60, chunk=4000, env=None, spec="Trace", inject=None, par=NCPU, files=None, one_per_process=False, post=None, driver="qsx", wrapper=None):
         """run scenarios (text with 'scenario <id>' blocks) on the driver, validate, collect verdicts.
         The scenario blocks are split into chunks that are executed and validated in parallel."""
         from concurrent.futures import ThreadPoolExecutor
@@ -125,7 +125,7 @@ class Ctx:
             ci, part = arg
             txt = "".join(t for _, t in part)
             ctag = "%s_%d" % (tag, ci)
-            evs, info = pipeline.run_driver(b[driver], txt, self.dir, ctag, crash_props, call_timeout=call_timeout, env=env, one_per_process=one_per_process)
+            evs, info = pipeline.run_driver(b[driver], txt, self.dir, ctag, crash_props, call_timeout=call_timeout, env=env, one_per_process=one_per_process, wrapper=wrapper)
             if post:
                 evs = post(evs, part, ctag)
             if inject:
